@@ -78,7 +78,7 @@ func init() {
 				W:       weights(Weights{"add": 25, "rm": 12, "write": 20, "rmfile": 8, "rmdir": 4, "reset": 1, "twins": 4, "junk": 0}),
 				Oracles: []HistOracle{orC04, orC06}, Idempotent: true}
 		})
-	checks["C02"] = histCheck("C02", []string{"C02.flatten_writeTree", "C02.world_commit_frame", "C02.build_ne_nil", "C02.subtrees_wellformed", "C05.readback_writeTree", "C05.walk_write", "C05.holds_storeAfter", "C01.get_put", "C02.commitCmd_ok", "C02.commit_readback", "C02.commitMake_ok", "C05.reset_readback", "C12.commit_parse_format"}, histRule,
+	checks["C02"] = histCheck("C02", []string{"C02.flatten_writeTree", "C02.world_commit_frame", "C02.world_commit_spec", "C02.build_ne_nil", "C02.subtrees_wellformed", "C05.readback_writeTree", "C05.walk_write", "C05.holds_storeAfter", "C01.get_put", "C02.commitCmd_ok", "C02.commit_readback", "C02.commitMake_ok", "C05.reset_readback", "C12.commit_parse_format"}, histRule,
 		func(ctx *Ctx) *HistCfg {
 			return &HistCfg{Prop: "C02", Cases: tierN(ctx, 200, 2000), MinSteps: 8, MaxSteps: 30,
 				W:       weights(Weights{"commit": 20, "add": 18, "add-all": 6, "twins": 3, "case-twin-commit": 3, "junk": 0}),
@@ -90,7 +90,7 @@ func init() {
 				W:       weights(Weights{"commit": 16, "status": 14, "add": 18, "rm": 6, "restore": 6, "fd-swap": 4, "junk": 0}),
 				Oracles: []HistOracle{orC07}, StatusAfterCommit: true}
 		})
-	checks["C08"] = histCheck("C08", []string{"C05.reset_readback", "C08.accepts", "C08.accepts_number", "C08.accepted_shape", "C08.position_agrees", "C08.out_of_range_refused", "C08.mode_table", "C08.resetCmd_ok", "C08.reset_soft", "C08.reset_refused", "C05.reset_readback"}, histRule+"; before every reset the `reflog` listing is sampled",
+	checks["C08"] = histCheck("C08", []string{"C08.world_reset_spec", "C05.reset_readback", "C08.accepts", "C08.accepts_number", "C08.accepted_shape", "C08.position_agrees", "C08.out_of_range_refused", "C08.mode_table", "C08.resetCmd_ok", "C08.reset_soft", "C08.reset_refused", "C05.reset_readback"}, histRule+"; before every reset the `reflog` listing is sampled",
 		func(ctx *Ctx) *HistCfg {
 			return &HistCfg{Prop: "C08", Cases: tierN(ctx, 200, 2000), MinSteps: 10, MaxSteps: 35,
 				W:       weights(Weights{"commit": 16, "reset": 14, "rename-reset": 4, "hard-rmdir": 5, "edit-same-size": 8, "switch": 3, "switch-c": 2, "rmdir": 4, "rmfile": 5, "junk": 0}),
@@ -102,7 +102,7 @@ func init() {
 				W:       weights(Weights{"restore": 20, "commit": 8, "rmfile": 8, "rmdir": 5, "write": 16, "add": 14, "rm": 4, "fd-swap": 4, "edit-same-size": 4, "twins": 5, "junk": 0}),
 				Oracles: []HistOracle{orC09}}
 		})
-	checks["C10"] = histCheck("C10", []string{"C03.inv_run", "C10.world_others_keep", "C03.inv_step", "C10.getBranchPos_correct", "C10.add_ok", "C10.add_dup", "C10.add_invalid", "C10.delete_ok", "C10.delete_current_refused", "C10.delete_unknown_refused", "C10.update_ok", "C10.update_unknown_refused", "C10.rename_ok", "C10.rename_dup_refused", "C10.others_keep", "C10.updateRef_spec", "C10.create_refused", "C10.delete_refused", "C10.switch_spec", "C10.add_lookup", "C10.delete_lookup", "C10.update_lookup", "C10.rename_lookup", "C10.add_refines", "C10.delete_refines", "C10.update_refines"}, histRule,
+	checks["C10"] = histCheck("C10", []string{"C03.inv_run", "C10.world_others_keep", "C10.world_branch_switch_refused_unchanged", "C10.world_switch_spec", "C10.world_create_spec", "C10.world_delete_spec", "C10.world_rename_spec", "C10.world_switch_create_spec", "C03.inv_step", "C10.getBranchPos_correct", "C10.add_ok", "C10.add_dup", "C10.add_invalid", "C10.delete_ok", "C10.delete_current_refused", "C10.delete_unknown_refused", "C10.update_ok", "C10.update_unknown_refused", "C10.rename_ok", "C10.rename_dup_refused", "C10.others_keep", "C10.updateRef_spec", "C10.create_refused", "C10.delete_refused", "C10.switch_spec", "C10.add_lookup", "C10.delete_lookup", "C10.update_lookup", "C10.rename_lookup", "C10.add_refines", "C10.delete_refines", "C10.update_refines"}, histRule,
 		func(ctx *Ctx) *HistCfg {
 			return &HistCfg{Prop: "C10", Cases: tierN(ctx, 250, 2500), MinSteps: 10, MaxSteps: 40,
 				W: weights(Weights{"branch": 10, "branch-rename": 6, "branch-delete": 6, "branch-list": 4, "switch": 8, "switch-c": 5, "update-ref": 6,
